@@ -571,7 +571,10 @@ class ConfigTypeField(BaseField):
         self.config_type = config_type
 
     def __setdefault__(self, cfg: "Config") -> None:
-        cfg._set_default_value(self._key, self.config_type(cfg))
+        value = self.config_type(cfg)
+        if isinstance(value, Config):
+            value._key = self._key
+        cfg._set_default_value(self._key, value)
 
     def __call__(self, cfg: Optional["Config"] = None) -> "ConfigType":
         """
